@@ -367,6 +367,14 @@ mod verif_bounded {
             let manager = EpochSnapshotManager::new(retention);
             manager.create_snapshot(&s, &gid(1), first + n, &cid(first + n), 5000 + first + n).unwrap();
             expect(label, &format!("{scen}; one more commit (epoch {})", first + n), "epochs of the stored snapshots", "SQLite", epochs_of(&s), ((first + 1)..=(first + n)).collect::<Vec<_>>());
+            // (c) the restart comes with a LOWER retention (configuration changed between sessions): the most recent ones are kept
+            if retention >= 2 {
+                let s = first_run(first, n, descending_ids, retention);
+                let r2 = retention - 1;
+                let manager = EpochSnapshotManager::new(r2);
+                manager.create_snapshot(&s, &gid(1), first + n, &cid(first + n), 5000 + first + n).unwrap();
+                expect(label, &format!("{scen} with retention lowered to {r2}; one more commit (epoch {})", first + n), "epochs of the stored snapshots", "SQLite", epochs_of(&s), ((first + n + 1 - r2 as u64)..=(first + n)).collect::<Vec<_>>());
+            }
             // (b) after the restart a rollback to the second snapshot: it is consumed and every later one released, the older one kept
             if retention >= 3 {
                 let s = first_run(first, n, descending_ids, retention);
